@@ -62,6 +62,10 @@ def op_fault_run(t):
         if kind == 'bad_line':
             bad = {'one_col': 'justonecolumn', 'four_cols': 'a\tb\t1\textra', 'empty': ''}[fault['shape']]
             lines.insert(1 + fault['pos'], bad)
+        if kind == 'all_bad':
+            # a file in a different format altogether (comma separated): every line is malformed,
+            # so every counting / conversion worker fails at once
+            lines = ['cues,outcomes'] + [','.join(c) + ',' + ','.join(o) for c, o in events] * 20
         path = os.path.join(cd.inp, 'events.tab.gz')
         _write_lines(path, lines, truncate=fault.get('fraction') if kind == 'truncated_gz' else None)
         before = sha(path)
